@@ -46,7 +46,7 @@ def run_cases(rep, name, rule, bound, cases, check_case, exhaustive=False, worke
     cases = list(cases)
     if not cases:
         return
-    workers = workers or min(16, os.cpu_count() or 4)
+    workers = workers or int(os.environ.get("VF_WORKERS", "0") or 0) or min(16, os.cpu_count() or 4)
     _JOB["cases"], _JOB["fn"] = cases, check_case
     n = len(cases)
     if serial or n < 32 or workers == 1:
